@@ -1290,29 +1290,25 @@ where
                 .map(|s| s.entry())
                 .or(right_frontier_in_parent.map(|f| f.entry()));
 
-            // If the right child is different from None and the next sibling too,
-            // extract the first cell of the first child on our next sibling and allocate a new cell.
-            // This always happens on interior nodes rebalancing, as right_child is not set on leaf nodes.
-            if let Some(right_most_child_id) = right_child
-                && let Some(next_id) = next_sibling
-            {
-                let next_page = self.get_page_mut(next_id)?;
-
-                // Obtain the first child
-                if let Some(first_child_id) = next_page.child(0) {
-                    let child_page = self.get_page_mut(first_child_id)?;
-                    let mut cell = child_page.owned_cell(0);
-
-                    // Make the copied cell point to our right child and push it to the chain.
-                    cell.set_left_child(Some(right_most_child_id));
-                    cells.push_back(cell);
-                };
-            };
-
             let parent_page = self.get_page_mut(parent_page_id)?;
             // Remove our entry from the parent node.
-            if slot_to_remove < parent_page.num_slots() {
-                parent_page.remove(slot_to_remove)?;
+            let separator = if slot_to_remove < parent_page.num_slots() {
+                Some(parent_page.remove(slot_to_remove)?)
+            } else {
+                None
+            };
+
+            // If the right child is different from None and the next sibling too,
+            // the separator we have just removed from the parent is the divider between our
+            // right most child and the next sibling: make it point to our right child and push it to the chain.
+            // (The first cell of the next sibling's first child is only the smallest key of that subtree when the child is a leaf.)
+            // This always happens on interior nodes rebalancing, as right_child is not set on leaf nodes.
+            if let Some(right_most_child_id) = right_child
+                && next_sibling.is_some()
+                && let Some(mut cell) = separator
+            {
+                cell.set_left_child(Some(right_most_child_id));
+                cells.push_back(cell);
             };
         }
 
